@@ -15,7 +15,7 @@ B_WARN = ('C07',)
 
 
 def units(tier, seed):
-    us = cases.fault_units(tier, seed, with_prims=True, thorough_budget=25, two_pairs_all=False)
+    us = cases.fault_units(tier, seed, with_prims=True, thorough_budget=20, two_pairs_all=False)
     if tier == "quick":
         # quick: for the session-count / password-session variants only the well-formed base cases are compared in the two
         # modes (the faults on them are left to C08 (same inputs, warn mode) and C03 (strict))
